@@ -168,6 +168,7 @@ func allProps() []PropSpec {
 				{Func: "ZZ_C13_H1", Pkg: "pkg/network/standard", Quick: map[string]int{"K": 3}, Thorough: map[string]int{"K": 4}, Covers: []string{"reached-assert", "crossed-node-boundary"}, Unwind: 40000, MaxSteps: 8000000},
 				{Func: "ZZ_C13_H2", Pkg: "pkg/network/standard", Quick: map[string]int{"K": 3}, Thorough: map[string]int{"K": 4}, Covers: []string{"reached-assert"}, Unwind: 40000, MaxSteps: 8000000},
 				{Func: "ZZ_C13_H3", Pkg: "pkg/network/standard", Quick: map[string]int{"K": 2}, Thorough: map[string]int{"K": 2}, Covers: []string{"reached-assert", "hit-end-of-input", "peek-beyond-end"}, Unwind: 40000, MaxSteps: 8000000, Note: "end of input at any point: stream of T bytes (T around node-boundary sizes or 0..3), four fragmentations, last bytes with or without the error in the same read"},
+				{Func: "ZZ_C13_BIG", Pkg: "pkg/network/standard", Covers: []string{"reached-assert"}, Unwind: 2000000, MaxSteps: 200000000, Note: "the > 512 KiB regime: a Peek beyond the pooled-block limit gets its own node; consume, Release, keep reading"},
 			},
 			Assumptions: []string{"operation sequences of length K with sizes base+d, base in {1,1024,4096,8192}, d in [-1,1]; input fragmented as whole / 1000 / 4096 / 5000-byte reads", "mcache and sync.Pool are modelled as LIFO free lists that re-issue freed blocks (so use-after-release is observable)", "end of input: ZZ_C13_H3 (two operations); TLS conn, ReadFrom, the 512 KiB malloc limit, read errors other than end of input and write errors are outside"},
 		},
@@ -189,6 +190,8 @@ func allProps() []PropSpec {
 				{Func: "ZZ_C20_H1", Pkg: "internal/tagexpr", Quick: map[string]int{"K": 2}, Thorough: map[string]int{"K": 3, "NUMS": 4}, Covers: []string{"reached-assert", "bool-result", "nan-result", "unspecified-value-evaluated"}, MaxSteps: 4000000},
 				{Func: "ZZ_C20_H2", Pkg: "internal/tagexpr", Quick: map[string]int{"K": 2}, Thorough: map[string]int{"K": 3}, Covers: []string{"reached-assert", "found"}, MaxSteps: 4000000, Note: "precedence inside function arguments: in(<chain>, c), !in(...), len('..') as an arithmetic operand"},
 				{Func: "ZZ_C20_H3", Pkg: "internal/tagexpr", Covers: []string{"reached-assert", "nil-field", "slice-field"}, MaxSteps: 4000000, Note: "field references $ / (F)$ with !, !! against boolean literals; field value injected through the interpreter's field table: nil, 0, 1, 7, true, false, '', 'ab', empty and non-empty []int (compared with itself)"},
+				{Func: "ZZ_C20_H4", Pkg: "internal/tagexpr", Quick: map[string]int{"K": 4}, Thorough: map[string]int{"K": 5}, Covers: []string{"reached-assert", "bool-result"}, MaxSteps: 4000000, Note: "parenthesis-free runs of 4..K operators, one representative per precedence level in every order"},
+				{Func: "ZZ_C20_H5", Pkg: "internal/tagexpr", Covers: []string{"reached-assert", "matched"}, MaxSteps: 4000000, Note: "regexp('<pattern>', '<text>') on string literals with !, !! and inside && || == (Go's regexp runs from SSA)"},
 			},
 			Assumptions: []string{"parser/evaluator kernel: literal operands (H1), in()/len() with literal arguments (H2), current-field references whose value is injected through the field table (H3); reflect-based struct walking, sub-selectors, maps/slices, regexp() and the validator front end are outside", "well-typed chains only (ill-typed ones are assumed away)", "operands from {0,1,2,3,7,true,false} (thorough: chains of three operators over {0,1,2,3}); one optional parenthesised group; spellings with single spaces or none (no '+'/'-' without spaces)", "Go's regexp package is executed from SSA for the literal lexers; reflect.ValueOf/Kind are modelled for basic kinds"},
 		},
